@@ -17,12 +17,55 @@ def is_public_api(P, n, f):
     return bool(f.get("pub"))
 
 
+_src = {}
+
+
+def doc_above(P, f):
+    """doc comment text above an item (source scan; the driver's attribute view misses docs on some items)"""
+    import os
+    from facts import REPO
+    path = os.path.join(REPO, f.get("file", ""))
+    if path not in _src:
+        try:
+            _src[path] = open(path, encoding="utf-8").read().split("\n")
+        except OSError:
+            _src[path] = []
+    lines = _src[path]
+    i = f.get("line", 1) - 2
+    out = []
+    while i >= 0:
+        s = lines[i].strip()
+        if s.startswith("///") or s.startswith("#[") or s.startswith("//") or s == "" and out and False:
+            out.append(s)
+            i -= 1
+        elif s.endswith(")]") or s.endswith(","):
+            i -= 1      # continuation of a multi-line attribute
+            if len(out) > 400:
+                break
+        else:
+            break
+    return "\n".join(out)
+
+
+OPERATOR_TRAITS = ("std::ops::Add", "std::ops::Sub", "std::ops::AddAssign", "std::ops::SubAssign", "std::ops::Mul", "std::ops::Div", "std::ops::Neg")
+
+
+def documented_panicker(P, n, f):
+    if f.get("doc_panics"):
+        return True
+    if f.get("trait") in OPERATOR_TRAITS or f.get("trait") == "std::iter::Sum":
+        return True       # operator arithmetic panics on overflow (documented on the checked forms and in the crate docs)
+    return "# Panics" in doc_above(P, f)
+
+
 def deprecated(P, n, f):
     if f.get("deprecated") or f.get("impl_deprecated"):
         return True
     if f.get("file", "").endswith("src/date.rs"):
         return True
-    return False
+    # operations on the deprecated `Date<Tz>` type defined elsewhere (MappedLocalTime<Date<Tz>>::and_*)
+    tys = [P.ty_s(i) for i in f.get("inputs", [])] + [f.get("impl") or ""]
+    return any("date::Date<" in (x or "") for x in tys)
 
 
 def fallible(P, f):
@@ -48,7 +91,7 @@ def root_sets(P):
         if deprecated(P, n, f):
             D.append(n)
             continue
-        if f.get("doc_panics"):
+        if documented_panicker(P, n, f):
             D.append(n)
             continue
         if f.get("derived"):
